@@ -100,6 +100,13 @@ Definition copy_style (src : string) (s : st) : st := assign_style (as_str (styl
 Definition is_binary (n : string) : bool := smem n binary_attributes.
 Definition is_binary_string (n : string) : bool := smem n binary_string_attributes.
 
+(* conversions.convertToBooleanString on a str / None *)
+Definition to_boolean_string (v : option string) : string :=
+  match v with
+  | None => "false"
+  | Some x => let l := lower x in if String.eqb l "false" || String.eqb l "0" then "false" else "true"
+  end.
+
 (* __setitem__ *)
 Definition setitem (k0 : string) (v : option string) (s : st) : st * res :=
   let k := lower k0 in
@@ -112,7 +119,7 @@ Definition setitem (k0 : string) (v : option string) (s : st) : st * res :=
     (* ... and then dict.__setitem__(self, 'style', <raw value>) *)
     (with_dict (od_set "style" AStyleSlot (dict s2)) s2, ROk)
   else if String.eqb k "class" then (set_className v s, ROk)
-  else if is_binary_string k then (s, RExc EUnsupported)
+  else if is_binary_string k then (with_dict (od_set k (AStr (to_boolean_string v)) (dict s)) s, ROk)
   else (with_dict (od_set k (match v with Some x => AStr x | None => ANone end) (dict s)) s, ROk).
 (* __delitem__ *)
 Definition delitem (k0 : string) (s : st) : st :=
@@ -134,6 +141,8 @@ Definition getitem (k0 : string) (s : st) : pyv :=
   let k := lower k0 in
   if String.eqb k "style" then PStr (as_str (sty s))
   else if String.eqb k "class" then PStr (className s)
+  else if is_binary_string k then
+    PStr (to_boolean_string (match od_get k (dict s) with Some (AStr x) => Some x | _ => None end))
   else match od_get k (dict s) with Some v => raw_value s v | None => PNone end.
 Definition truthy (v : pyv) : bool :=
   match v with PNone => false | PFalse => false | PTrue => true | PStr x => nonempty x end.
